@@ -135,7 +135,7 @@ def ref_encrypt(plain_packets, cipher, session, recipients, prefix=None, legacy_
             body = RPK.pkesk_build(r[1], cipher, session)
             out += _hdr(1, body, framing)
         else:
-            _, pw, spec, direct = r
+            pw, spec, direct = r[1], r[2], r[3]
             if direct:
                 body = sym.skesk_build(cipher, spec, pw)
             else:
